@@ -1103,17 +1103,6 @@ func (s *Server) publishToClient(cl *Client, sub packets.Subscription, pk packet
 		out.FixedHeader.Qos = s.Options.Capabilities.MaximumQos // [MQTT-3.2.2-9]
 	}
 
-	if cl.Properties.Props.TopicAliasMaximum > 0 {
-		var aliasExists bool
-		out.Properties.TopicAlias, aliasExists = cl.State.TopicAliases.Outbound.Set(pk.TopicName)
-		if out.Properties.TopicAlias > 0 {
-			out.Properties.TopicAliasFlag = true
-			if aliasExists {
-				out.TopicName = ""
-			}
-		}
-	}
-
 	if out.FixedHeader.Qos > 0 {
 		if cl.State.Inflight.Len() >= int(s.Options.Capabilities.MaximumInflight) {
 			// add hook?
@@ -1148,6 +1137,19 @@ func (s *Server) publishToClient(cl *Client, sub packets.Subscription, pk packet
 
 	if cl.Net.Conn == nil || cl.Closed() {
 		return out, packets.CodeDisconnect
+	}
+
+	// The alias is chosen only for the copy that is queued now: the stored in-flight copy keeps the
+	// full topic name, so a resend on another connection or a deferred send never depends on a binding.
+	if cl.Properties.Props.TopicAliasMaximum > 0 {
+		var aliasExists bool
+		out.Properties.TopicAlias, aliasExists = cl.State.TopicAliases.Outbound.Set(pk.TopicName)
+		if out.Properties.TopicAlias > 0 {
+			out.Properties.TopicAliasFlag = true
+			if aliasExists {
+				out.TopicName = ""
+			}
+		}
 	}
 
 	select {
